@@ -95,7 +95,9 @@ def model(ctx):
             if u["trigger"] is not True:
                 problems["C03"].append("%s: the update runs with the trigger flag lowered (unchanged values are filtered, nobody is notified)" % desc)
             if u["events"] or u["watchers"]:
-                problems["C04"].append("%s: the update runs with the previously queued events/watchers still in the queues (they are flushed as 'triggered')" % desc)
+                for tgt_ in ("C04", "C03"):
+                    problems[tgt_].append("%s: the update runs with the previously queued events/watchers still in the queues: they are flushed with the trigger flag raised, so a genuine "
+                                          "change is delivered with type 'triggered' instead of 'changed'" % desc)
             want = {k: (True if k == "e" else cur[k]) for k in names}
             g = u["given"]
             if set(g) != set(want) or any(g[k] is not want[k] for k in want):
